@@ -1,4 +1,4 @@
 #!/bin/bash
 # builds the stand-in against /repo (or $1) in /tmp/wt/sd
 R=${SD_REPO:-/repo}
-mkdir -p /tmp/wt/sd && sed "s#@REPO@#$R#" /verif/standin/Cargo.toml.in > /tmp/wt/sd/Cargo.toml && rm -rf /tmp/wt/sd/src && cp -r /verif/standin/src /tmp/wt/sd/src && cp $R/Cargo.lock /tmp/wt/sd/ && cd /tmp/wt/sd && CARGO_TARGET_DIR=${SD_TARGET:-/verif/standin/target} cargo build --release --offline 2>&1 | grep -E "^error" -A14 | head -${SD_LINES:-60}
+mkdir -p /tmp/wt/sd && sed "s#@REPO@#$R#" /verif/standin/Cargo.toml.in > /tmp/wt/sd/Cargo.toml && rm -rf /tmp/wt/sd/src && cp -r /verif/standin/src /tmp/wt/sd/src && (cp $R/Cargo.lock /tmp/wt/sd/ 2>/dev/null || cp /repo/Cargo.lock /tmp/wt/sd/) && cd /tmp/wt/sd && CARGO_TARGET_DIR=${SD_TARGET:-/verif/standin/target} cargo build --release --offline 2>&1 | grep -E "^error" -A14 | head -${SD_LINES:-60}
